@@ -3,6 +3,6 @@
 set -e
 cd "$(dirname "$0")"
 coqc -Q ../coq TungModel Extract.v >/dev/null
-mkdir -p _build && cp model.ml model.mli driver_hs.ml driver.ml _build/
-cd _build && ocamlfind ocamlopt -O3 -unboxed-types 2>/dev/null -package str model.mli model.ml driver_hs.ml driver.ml -o driver 2>/dev/null || \
-  ocamlfind ocamlopt -w -a model.mli model.ml driver_hs.ml driver.ml -o driver
+mkdir -p _build && cp model.ml model.mli dutil.ml driver_hs.ml driver.ml _build/
+cd _build && ocamlfind ocamlopt -O3 -unboxed-types 2>/dev/null -package str model.mli model.ml dutil.ml driver_hs.ml driver.ml -o driver 2>/dev/null || \
+  ocamlfind ocamlopt -w -a model.mli model.ml dutil.ml driver_hs.ml driver.ml -o driver
